@@ -250,6 +250,22 @@ impl PoolMap {
         let mut removed_ids = vec![id.to_owned()];
         removed_ids.extend(self.calc_descendants(id));
 
+        // the surviving ancestors of the removed entries no longer count them as descendants;
+        // this must happen before the links are dropped, remove_entry can't see the ancestors afterwards
+        let removed_set: HashSet<ProposalShortId> = removed_ids.iter().cloned().collect();
+        for removed_id in &removed_ids {
+            if let Some(removed) = self.entries.get_by_id(removed_id).map(|e| e.inner.clone()) {
+                for anc_id in self.links.calc_ancestors(removed_id) {
+                    if !removed_set.contains(&anc_id) {
+                        self.entries.modify_by_id(&anc_id, |e| {
+                            e.inner.sub_descendant_weight(&removed);
+                            e.evict_key = e.inner.as_evict_key();
+                        });
+                    }
+                }
+            }
+        }
+
         // update links state for remove, so that we won't update_descendants_index_key in remove_entry
         for id in &removed_ids {
             self.remove_entry_links(id);
